@@ -84,7 +84,10 @@ def transport_id(rng, kind=None):
     # iSCSI: ADDITIONAL LENGTH (bytes 2-3) counts what follows; the name is null-terminated and null-padded to a
     # multiple of four, at least 20 bytes
     n = rng.choice([1, 2, 3, 4, 15, 16, 17, 18, 19, 20, 21, 30, 31, 32, 33])
-    name = "iqn.2001-04.com.ex:" + "".join(rng.choice("abcdefghijklmnopqrstuvwxyz0123456789.-") for _ in range(n))
+    alphabet = "abcdefghijklmnopqrstuvwxyz0123456789.-"
+    if rng.random() < 0.15:
+        alphabet += "éü中"                       # iSCSI names are UTF-8 (RFC 3722): lengths count bytes, not characters
+    name = "iqn.2001-04.com.ex:" + "".join(rng.choice(alphabet) for _ in range(n))
     exp = dict(protocol_id=5, iscsi_name=name)
     if kind == "iscsi1":
         isid = "%012x" % rng.randrange(1 << 48)
@@ -93,7 +96,7 @@ def transport_id(rng, kind=None):
     else:
         s = name
         exp.update(tpid_format=0)
-    raw = s.encode("ascii") + b"\0"
+    raw = s.encode("utf-8") + b"\0"
     while len(raw) % 4 or len(raw) < 20:
         raw += b"\0"
     b = bytearray(4) + raw
